@@ -107,7 +107,7 @@ class ConstantCoalescent(AbstractCoalescentDistribution):
 
         durations = heights_sorted[..., 1:] - heights_sorted[..., :-1]
         lchoose2 = lineage_count * (lineage_count - 1) / 2.0
-        return torch.sum(lchoose2 * durations) / (taxa_shape[-1] - 2)
+        return torch.sum(lchoose2 * durations) / (taxa_shape[-1] - 1)
 
     def log_prob(self, node_heights: torch.Tensor) -> torch.Tensor:
         taxa_shape = node_heights.shape[:-1] + (int((node_heights.shape[-1] + 1) / 2),)
